@@ -359,6 +359,9 @@ def coup_adjust(field, e):
 def run(ck):
     P = prog("K1")
     ck.configs.add("K1")
+    # round 10: the copy's symbol buffer is the whole buffer (push_lit relies on zero distance bytes)
+    from . import c14 as _c14w
+    _c14w.whole_buffer_clones(ck, P)
     # the two header-CRC bytes are written only when both fit (Pending::extend asserts the room; round 9)
     from . import c20 as _c20s
     _c20s.resume_from_gzindex(ck, P)
